@@ -87,6 +87,15 @@ fn main() {
         let bytes = case.model.to_bytes();
         let wsconst: String = (0..rng.below(4)).map(|_| WS[rng.below(7)]).collect();
         let mut texts: Vec<String> = case.texts.iter().map(|t| to_string(t)).collect();
+        {
+            // characters whose normalised form has another character type (the four dashes -> katakana ー) next to kana
+            let a = vgen::text::alphabet_norm_heavy(&mut rng, 5, k % 2 == 0);
+            for _ in 0..2 {
+                let n = rng.urange(2, 24);
+                texts.push(to_string(&vgen::text::text_from(&mut rng, &a, n)));
+            }
+            texts.push("ラ－メン―を–食べ─る".to_string());
+        }
         texts.push(String::new());
         texts.push("abc-XYZ 12.5% ｱｲｳ\r\nﾊﾟ".to_string());
         texts.push(format!("{}\n{}", texts[0], texts[0]));
